@@ -20,6 +20,7 @@ import (
 	"strconv"
 	"strings"
 	"sync"
+	"sync/atomic"
 	"syscall"
 	"time"
 )
@@ -245,6 +246,7 @@ func runWorker(ck *Check, tier string, seed int64, spec, out string, race bool, 
 	fmt.Sscanf(spec, "%d/%d", &i, &n)
 	MuteOutput()
 	debug.SetMemoryLimit(6 << 30)
+	workerOut = out
 	go memWatch()
 	if budget == 0 {
 		budget = 150 * time.Second
@@ -269,14 +271,68 @@ func runWorker(ck *Check, tier string, seed int64, spec, out string, race bool, 
 	}
 }
 
+// SetCurrent names the case a worker is about to evaluate (driver + replay payload + one-line description). If the code
+// under test then exhausts memory or stops making progress, the watchdog turns that case into a violation instead of
+// letting the worker die without a report.
+//
+// The returned function ends the case; the watchdog only acts between SetCurrent and that call.
+func SetCurrent(driver string, payload any, desc string) (done func()) {
+	curCase.Store(&currentCase{driver, payload, desc})
+	curTick.Add(1)
+	return doneCurrent
+}
+
+func doneCurrent() {
+	curCase.Store(nil)
+	curTick.Add(1)
+}
+
+type currentCase struct {
+	driver  string
+	payload any
+	desc    string
+}
+
+var (
+	curCase   atomic.Pointer[currentCase]
+	curTick   atomic.Int64
+	workerOut string // report path of this worker (set by runWorker)
+)
+
+// giveUp writes a minimal report holding one finding for the current case and ends the worker.
+func giveUp(kind, what string) {
+	c := curCase.Load()
+	if c == nil || workerOut == "" {
+		fmt.Fprintln(os.Stderr, "worker: "+what+", giving up")
+		os.Exit(4)
+	}
+	rep := NewReport()
+	rep.Evaluations = 1
+	rep.Add(kind, fmt.Sprintf("%s while evaluating %s", what, c.desc), c.driver, c.payload)
+	js, _ := json.Marshal(rep)
+	_ = os.WriteFile(workerOut, js, 0o644)
+	os.Exit(0)
+}
+
 func memWatch() {
+	lastTick, stall := int64(-1), 0
 	for {
 		time.Sleep(2 * time.Second)
 		var m runtime.MemStats
 		runtime.ReadMemStats(&m)
 		if m.HeapAlloc > 10<<30 {
-			fmt.Fprintln(os.Stderr, "worker: heap above 10 GiB, giving up")
-			os.Exit(4)
+			giveUp("resource-exhaustion:heap", "the code under test grew the heap above 10 GiB")
+		}
+		// a check that announces its cases (SetCurrent) and then stays on one case for 3 minutes is stuck in the code under test
+		if t := curTick.Load(); t > 0 && curCase.Load() != nil {
+			if t == lastTick {
+				stall++
+			} else {
+				lastTick, stall = t, 0
+			}
+			if stall >= 90 {
+				giveUp("no-progress", "no progress for 180 s (non-terminating code under test)")
+			}
 		}
 	}
 }
